@@ -54,6 +54,18 @@ def check(cx):
     r2 = cx.rule("C17.2", "FLOW: WriteAheadLog::open restores the number of blocks on disk from the persisted header "
                  "(total_blocks); create starts at 1; truncate resets header, current block, flush queue and the block "
                  "counter (every field but file/block_size)", floor=3)
+    def const_through_copies(f_, o, depth=0):
+        """the constant an operand is, through copies (the parameter of an inlined constructor is a copy of the argument)"""
+        k_ = op_const(o)
+        if k_ is not None:
+            return k_
+        lo = op_local(o)
+        if lo is None or depth > 5:
+            return None
+        defs = [st for b_ in f_.blocks for st in b_["stmts"] if st["dst"] == [lo]]
+        if len(defs) == 1 and defs[0]["rv"].get("r") in ("use", "cast") and defs[0]["rv"].get("o"):
+            return const_through_copies(f_, defs[0]["rv"]["o"][0], depth + 1)
+        return None
     fo = cx.guard(r2, "open", p.method, WAL, "open", "io::disk::FileOperations")
     if fo:
         good = False
@@ -65,7 +77,7 @@ def check(cx):
                 continue
             o = rv["o"][rv["fields"].index("flushed_blocks")]
             l = op_local(o)
-            k = op_const(o)
+            k = const_through_copies(fo, o)
             if k is not None:
                 continue   # the short-log branch starts at the constant 1, fine
             cl = fo.dep_closure(l)
@@ -83,7 +95,7 @@ def check(cx):
             rv = s["rv"]
             if "flushed_blocks" in rv["fields"]:
                 o_ = rv["o"][rv["fields"].index("flushed_blocks")]
-                k = op_const(o_)
+                k = const_through_copies(fc, o_)
                 okc = k is not None and k.get("v") == 1
                 if not okc and op_local(o_) is not None:
                     # a constructor shared with open(): `header.total_blocks.max(1)` of the freshly allocated header
